@@ -208,6 +208,9 @@ func (self BinaryConv) handleError(ctx context.Context, fsm *types.J2TStateMachi
 		}
 	case types.ERR_OOM_BUF:
 		{
+			// NOTICE: if native ran out of buffer while collecting unset fields, it collects them again
+			// from the first one after re-entry, thus the fields cached so far must be dropped
+			fsm.FieldCache = fsm.FieldCache[:0]
 			c := cap(*buf)
 			c += c >> 1
 			if c < cap(*buf)+p {
@@ -220,6 +223,9 @@ func (self BinaryConv) handleError(ctx context.Context, fsm *types.J2TStateMachi
 		}
 	case types.ERR_OOM_FIELD:
 		{
+			// NOTICE: native collects unset fields again from the first one after re-entry,
+			// thus the fields cached so far must be dropped (otherwise they are written twice and the cache never fits)
+			fsm.FieldCache = fsm.FieldCache[:0]
 			fsm.GrowFieldCache(types.J2T_FIELD_CACHE_SIZE)
 			fsm.SetPos(p)
 			return true, nil
